@@ -45,7 +45,11 @@ SlotTypes == <<
     TList(TRef("L"), Unset, 2),
     TRef("K"),
     TRef("E"),
-    TRef("A")
+    TRef("A"),
+    \* containers whose ITEMS have an encoding of their own (base64 text, formatted time)
+    TList(TBytes(Unset, Unset), Unset, 2),
+    TList(TTs("f3"), 1, Unset),
+    TMap(TTs("f1"))
   >>
 
 Cfgs == {[x |-> i, uc |-> uc, pc |-> pc] :
@@ -130,21 +134,7 @@ Spec == Init /\ [][Next]_vars
 \* ------------------------------------------------------------ properties
 SC == Schema(cfg)
 
-\* json_serializer.rst "Nullable": a nullable struct member whose struct has
-\* no field set is indistinguishable from null; "the deserializer should
-\* return a null".  Canon applies exactly that identification.
-RECURSIVE Canon(_, _)
-Canon(sc, v) ==
-    CASE v.k = "list"   -> VList([i \in DOMAIN v.items |-> Canon(sc, v.items[i])])
-      [] v.k = "map"    -> VMap([key \in DOMAIN v.m |-> Canon(sc, v.m[key])])
-      [] v.k = "struct" -> VStruct(v.c, [n \in DOMAIN v.f |-> Canon(sc, v.f[n])])
-      [] v.k = "union"  ->
-           LET tg == TagByName(sc, v.c, v.tag) IN
-           IF IsNullable(sc, tg.t) /\ v.v.k = "struct" /\ IsPlainStruct(sc, Under(sc, tg.t))
-              /\ EncFields(sc, v.v.c, v.v.f, {}, FALSE) = [x \in {} |-> JNull]
-           THEN VUnion(v.c, v.tag, VNone)
-           ELSE VUnion(v.c, v.tag, Canon(sc, v.v))
-      [] OTHER          -> v
+\* Canon (the identification of an all-unset nullable struct member with null) is defined in StoneWire
 
 Sent == phase = "sent"
 
